@@ -25,6 +25,7 @@ type Report struct {
 	known     []knownFinding
 	updBase   bool
 	engineErr []string
+	partial   bool // only a subset of functions was generated (-only): vanished obligations are not reported
 }
 
 type knownFinding struct {
@@ -195,7 +196,7 @@ func (r *Report) emit(verif string, writeEvidence, verbose bool) int {
 			if res.Obl.Vacuity {
 				continue
 			}
-			if res.Status == "unsat" && res.TimeS < 4.0 {
+			if res.Status == "unsat" && res.MaxS < 8.0 {
 				r.baseline[res.Obl.Name] = res.Obl.Props
 			}
 		}
@@ -251,7 +252,7 @@ func (r *Report) emit(verif string, writeEvidence, verbose bool) int {
 			}
 		}
 		for n, ps := range r.baseline {
-			if has(ps, p) && !generated[n] && contractLevel(n) {
+			if has(ps, p) && !generated[n] && contractLevel(n) && !r.partial {
 				v.Vanished = append(v.Vanished, n)
 			}
 		}
